@@ -21,7 +21,8 @@ def run(ctx):
     ctx.trusted_base += [
         "tools/gofacts: GetMaxGlobalError, lib.RelativeError/Abs translated to Gen.C10 over Rat (float64 read as exact rationals); skip period, retry delay and the errors.Is->reason chain extracted from the AST",
         "correspondence harness harness/contract/verif_c10_test.go: real GetMaxGlobalError vs Gen (relative 1e-12), real checkIncomingHashrate under virtual time vs Model.Buyer.check on float-safe inputs",
-        "modelled, not verified: Model/BuyerCheck.lean (check step; close/retry loop of ControllerBuyer.Run — the loop is tied by the regenerated reason chain/delay only until the fake-chain harness covers it)",
+        "buyer-controller harness harness/contract/verif_buyerctl_test.go: the real ControllerBuyer.Run with its real ContractWatcherBuyer over the real HashrateEthereum store; faked: the Ethereum node (harness/vh/chain.go + chaintx.go: takes transactions, refuses the next k, reverts a close of a contract that is not running, mines the rest at once and emits contractClosed) and the incoming shares; monitor Driver/C10ctl.lean judges the transactions the controller sent against Model.Buyer.closeLoop / reasonFor (regenerated reason chain and retry delay) and the property's clauses: nothing sent without a fault, the verdict's reason, one attempt every retry delay until one succeeds, none after a success, no giving up, the loop ends once somebody else has closed the contract",
+        "modelled, not verified: Model/BuyerCheck.lean (check step; close/retry loop of ControllerBuyer.Run)",
     ]
     ctx.assumptions += ["float64 division is correctly rounded (monotone)", "last-submit time is kept at one-second granularity by the code (Mean counter); the model uses that truncated instant",
                         "target hashrate > 0"]
@@ -53,6 +54,7 @@ def run(ctx):
                                                 "implementation_says": d["impl"], "model_says": d["other"]})
     complaints = L.run_monitor(ctx, "c10", TRANSCRIPT)
     L.handle_complaints(ctx, complaints, sig_of)
+    ctl_cases = controller_loop(ctx, exe)
     cases = L.parse_cases("%s/%s" % (ctx.out, TRANSCRIPT))
     verdicts = {}
     nops = 0
@@ -68,10 +70,62 @@ def run(ctx):
     ctx.coverage.update({
         "evaluations": nops, "distinct_nontrivial": len(distinct),
         "rule": "tolerance: boundary grid (elapsed around skip, skip+flatness; flatness 0..1h incl. < skip; thresholds 0,5%,50%,100%) + seeded triples and monotonicity pairs, judged by the specification clauses and compared with the regenerated definition; validation step: seeded inputs placed around validator start / skip end / share-timeout boundary (second aligned) / contract end, executed on the real ContractWatcherBuyer under virtual time, float-safe only. Distinct = distinct op lines; every op is non-trivial (each exercises a comparison)",
-        "verdict_distribution": verdicts, "traces_validated_against_impl": len(cases),
+        "verdict_distribution": verdicts, "traces_validated_against_impl": len(cases) + len(ctl_cases),
+        "controller_histories": len(ctl_cases),
+        "controller_rule": "buyer contract of 600 / 900 / 1500 s, share timeout 60 / 120 s, cycle 30 / 60 s: a healthy stretch of shares, then shares stop / the measured rate drops / somebody else closes / nothing; the node refuses 0..5 transactions, or all of them while somebody else closes the contract 5..50 s into the retry loop; 15% end with a shutdown",
+        "controller_outcomes": {k: sum(1 for h, ls in ctl_cases if any(k in l for l in ls)) for k in ("werr=sharetimeout", "werr=underdelivery", "werr=closed", "werr=ended", "ok=0", "ok=1", "closedevent")},
     })
     ctx.samples += [{"case": h, "lines": lines[:4]} for h, lines in cases[2:5]]
 
 
+CTL_TEST, CTL_TRANSCRIPT = "TestVerifBuyerCtl$", "buyerctl.impl.txt"
+
+
+def controller_loop(ctx, exe):
+    """the close / retry loop of the real ControllerBuyer against the fake node, judged by Driver/C10ctl.lean"""
+    n = 150 if ctx.tier == "quick" else 3000
+    rc, out = L.run_harness(ctx, exe, CTL_TEST, env={"VERIF_N": n, "VERIF_FLUSH": 1}, timeout=1700)
+    if rc != 0:
+        if not L.crash_violation(ctx, CTL_TRANSCRIPT, out, "c10"):
+            ctx.tie_failures.append("controller harness run failed (rc=%d): %s" % (rc, out[-500:]))
+        return []
+    cases = L.parse_cases("%s/%s" % (ctx.out, CTL_TRANSCRIPT))
+    bycase = dict(cases)
+    seen = set()
+    for case, c in L.run_monitor(ctx, "c10ctl", CTL_TRANSCRIPT):
+        body, _, op = c.partition(" @ ")
+        if not body.startswith("PROP "):
+            continue
+        sig = "c10ctl:" + re.sub(r"-+", "-", re.sub(r"[^a-z]+", "-", re.sub(r"[0-9]+", "N", body[5:].lower()))).strip("-")[:80]
+        if sig in seen:
+            continue
+        seen.add(sig)
+        # the whole history is the replay (op texts repeat within a history, so it is not cut at the complaint)
+        ops = [l for l in bycase.get(case, []) if l.startswith("> ")]
+        L.violation(ctx, sig, body[5:] + " @ " + op, {"clause": body[5:], "case": case, "ops": ops, "how_to_replay": "bin/check C10 --replay <this file>"})
+    return cases
+
+
 def replay(ctx, path):
-    return L.generic_replay(ctx, path, HDIR, TEST, "c10", TRANSCRIPT)
+    import json, os
+    rp = json.load(open(path))
+    if not rp.get("signature", "").startswith("c10ctl:"):
+        return L.generic_replay(ctx, path, HDIR, TEST, "c10", TRANSCRIPT)
+    ops = [o[2:] if o.startswith("> ") else o for o in rp.get("ops", [])]
+    exe = L.build_harness(ctx, HDIR)
+    if not exe or not L.build_driver(ctx):
+        print("cannot build harness/driver: %s" % ctx.tie_failures)
+        return 2
+    d = ctx.out + "/shrink"
+    os.makedirs(d, exist_ok=True)
+    open(d + "/ops.txt", "w").write("\n".join(ops) + "\n")
+    e = L.go_env({"VERIF_OUT": d, "VERIF_SEED": ctx.seed, "VERIF_REPLAY_OPS": d + "/ops.txt", "VERIF_FLUSH": "1"})
+    rc, out = L.sh([exe, "-test.run", CTL_TEST, "-test.timeout", "120s"], cwd=d, env=e, timeout=200)
+    t = d + "/" + CTL_TRANSCRIPT
+    print(open(t).read() if os.path.exists(t) else "")
+    L.drv("monitor", "c10ctl", t, d + "/mon.txt")
+    mon = open(d + "/mon.txt").read()
+    hit = [l for l in mon.split("\n") if l.startswith("! PROP")]
+    print("\n".join(hit))
+    print("REPLAY: %s" % ("the violation reproduces" if hit else "no violation"))
+    return 1 if hit else 0
